@@ -113,7 +113,7 @@ pub fn props() -> Vec<PropCfg> {
             id: "C06",
             profiles: &[("C06", 39), ("C06-fault", 1)],
             quick_runs: 40000,
-            thorough_runs: 600000,
+            thorough_runs: 400000,
             level: "exploration",
             rule: "world R restricted to the real SizeTrigger; record lengths are aimed at limit-1/limit/limit+1 of the running file size; at every consultation the size shown to the policy is compared with fs::metadata, and after every append rotation-iff-over-limit is checked against the byte model; non-trivial = at least one rotation completed; distinct = distinct event-log fingerprints",
             assumptions: &["profile C06 (39/40 of the histories) injects no fault; profile C06-fault (1/40) re-executes its history once per rotation-step site with an error or a crash image there (as C08 does) and keeps judging the size shown to the policy after the failed rotation", "size aiming is exact for single-writer phases and approximate under concurrency"],
